@@ -118,3 +118,63 @@ Proof. exact c05_example_noperm. Qed.
 
 Example fixed_rule_rejects_fredkin_pair : commutation_rules fredkin_b fredkin_a = false.
 Proof. exact commutation_rules_fixed_fredkin. Qed.
+
+(* ---- H1 / H2 HOLD for the library's real gate matrices (Gen.Gates.dispatch, regenerated from operations/gates.py and
+        gateclass.py on every run), embedded by Found.Base.app on the qubits controls ++ targets, in every phase ring R
+        and for all parameter values (env maps the reduced argument list of a gate to arbitrary parameter atoms), with the
+        library's commutation_rules (fixes/C05-commutation-rules.diff applied): so sched_sem is a statement about actual
+        unitaries acting on every register.  An instruction that is not well formed for its name (unknown name, wrong
+        number of controls / targets, repeated qubit, a gate with >= 2 parameters carrying another number of arguments)
+        has no unitary and acts as the identity.  Proofs/SchedReal.v: 63 local symbolic commutation identities with
+        independent parameter values for the two gates (all_ok, vm_compute), lifted by Found/Shift.v. ---- *)
+From QV Require Import Found.Circ Found.Shift Gen.Gates Proofs.C09 Proofs.SchedReal.
+
+(* what act_real is *)
+Theorem act_real_wf : forall (R : PhaseRing) (env : list Q -> atoms R) g m, wf_instr g = Some m ->
+  forall st, act_real R env g st = Base.app (emat (withA R (env (map Qred (iargs g)))) (mmat m)) (icontrols g ++ itargets g) st.
+Proof. intros R env g m H st. unfold act_real. rewrite H. reflexivity. Qed.
+
+Theorem wf_instr_iff : forall g m, wf_instr g = Some m <->
+  exists nc nt np, SchedReal.arity (iname g) = Some (nc, nt, np) /\ assoc (iname g) dispatch = Some m /\
+    length (icontrols g) = nc /\ length (itargets g) = nt /\ NoDup (icontrols g ++ itargets g) /\
+    (np <= 1 \/ length (iargs g) = np).
+Proof. exact SchedReal.wf_iff. Qed.
+
+Theorem arity_covers_dispatch : forall n m, In (n, m) dispatch -> exists ar, SchedReal.arity n = Some ar.
+Proof. exact SchedReal.arity_cover. Qed.
+
+Theorem real_H1 : forall (R : PhaseRing) (env : list Q -> atoms R) a b, disjoint_qubits a b ->
+  forall s, act_real R env a (act_real R env b s) = act_real R env b (act_real R env a s).
+Proof. exact SchedReal.real_H1. Qed.
+Print Assumptions real_H1.
+
+Theorem real_H2 : forall (R : PhaseRing) (env : list Q -> atoms R) a b, commutation_rules a b = true ->
+  forall s, act_real R env a (act_real R env b s) = act_real R env b (act_real R env a s).
+Proof. exact SchedReal.real_H2. Qed.
+Print Assumptions real_H2.
+
+(* executing the scheduled cycles = executing the original order, as unitaries *)
+Theorem sched_sem_unitary :
+  forall (R : PhaseRing) (env : list Q -> atoms R) allow_permutation instrs alap random sh so, valid_input instrs ->
+  forall ks ko cycles ks' ko',
+    sched_cycles commutation_rules allow_permutation instrs alap random sh so ks ko = Some (cycles, ks', ko') ->
+    forall s : state R, fold_left (fun s i => act_real R env (ith instrs i) s) (concat cycles) s
+                        = fold_left (fun s g => act_real R env g s) instrs s.
+Proof.
+  intros R env perm instrs alap random sh so Hv ks ko cycles ks' ko' H s.
+  exact (sched_sem commutation_rules perm instrs alap random sh so Hv (state R) (act_real R env)
+           (SchedReal.real_H1 R env) (SchedReal.real_H2 R env) ks ko cycles ks' ko' H s).
+Qed.
+Print Assumptions sched_sem_unitary.
+
+(* non-vacuity: library gates are well formed (act_real is their matrix, not the identity fallback) *)
+Example wf_examples :
+  wf_instr (mkInstr "CNOT" [1] [0] [] 1) = Some fn_cnot /\
+  wf_instr (mkInstr "RX" [1] [] [1 # 2] 1) = Some (msubst [Var 0] fn_rx) /\
+  wf_instr (mkInstr "TOFFOLI" [2] [0; 1] [] 1) = Some fn_toffoli /\
+  wf_instr (mkInstr "FREDKIN" [1; 2] [0] [] 1) = Some fn_fredkin /\
+  wf_instr (mkInstr "R" [0] [] [1 # 2; 1 # 4] 1) = Some (msubst [Var 0; Var 1] fn_qrot) /\
+  wf_instr (mkInstr "R" [0] [] [1 # 2] 1) = None /\ wf_instr (mkInstr "CNOT" [0] [0] [] 1) = None.
+Proof. repeat split. Qed.
+Example c05_example_wf : forallb (fun g => match wf_instr g with Some _ => true | None => false end) c05_example = true.
+Proof. reflexivity. Qed.
